@@ -371,7 +371,6 @@ Definition lbq_table : table := [
 Definition dq_table : table := [
   mkRow "DelayQueue" "Dequeue" "d.mutex.Lock()" "DelayQueue.mutex" KRead GConst;
   mkRow "DelayQueue" "Dequeue" "d.mutex.Lock()" "DelayQueue.mutex" (KSync "lock") GNone;
-  mkRow "DelayQueue" "Dequeue" "val, err := d.q.Peek()" "DelayQueue.q" KRead GConst;
   mkRow "DelayQueue" "Dequeue" "val, err := d.q.Peek()" "DelayQueue.q.*" KRead (GLock "DelayQueue.mutex" Excl);
   mkRow "DelayQueue" "Dequeue" "val, err = d.q.Dequeue()" "DelayQueue.q.*" KWrite (GLock "DelayQueue.mutex" Excl);
   mkRow "DelayQueue" "Dequeue" "d.dequeueSignal.broadcast()" "DelayQueue.dequeueSignal" KRead GConst;
@@ -384,7 +383,6 @@ Definition dq_table : table := [
   mkRow "DelayQueue" "Dequeue" "<-signal" "cond.signal^" (KSync "recv") GNone;
   mkRow "DelayQueue" "Enqueue" "d.mutex.Lock()" "DelayQueue.mutex" KRead GConst;
   mkRow "DelayQueue" "Enqueue" "d.mutex.Lock()" "DelayQueue.mutex" (KSync "lock") GNone;
-  mkRow "DelayQueue" "Enqueue" "err := d.q.Enqueue(t)" "DelayQueue.q" KRead GConst;
   mkRow "DelayQueue" "Enqueue" "err := d.q.Enqueue(t)" "DelayQueue.q.*" KWrite (GLock "DelayQueue.mutex" Excl);
   mkRow "DelayQueue" "Enqueue" "d.enqueueSignal.broadcast()" "DelayQueue.enqueueSignal" KRead GConst;
   mkRow "DelayQueue" "Enqueue" "cond.broadcast: old := c.signal" "cond.signal" KRead (GLock "DelayQueue.mutex" Excl);
@@ -398,23 +396,18 @@ Definition dq_table : table := [
 
 Definition cpq_table : table := [
   mkRow "ConcurrentPriorityQueue" "Cap" "c.m.RLock()" "ConcurrentPriorityQueue.m" (KSync "rlock") GNone;
-  mkRow "ConcurrentPriorityQueue" "Cap" "return c.pq.Cap()" "ConcurrentPriorityQueue.pq" KRead GConst;
   mkRow "ConcurrentPriorityQueue" "Cap" "return c.pq.Cap()" "ConcurrentPriorityQueue.pq.*" KRead (GLock "ConcurrentPriorityQueue.m" Shared);
   mkRow "ConcurrentPriorityQueue" "Cap" "defer c.m.RUnlock()" "ConcurrentPriorityQueue.m" (KSync "runlock") GNone;
   mkRow "ConcurrentPriorityQueue" "Dequeue" "c.m.Lock()" "ConcurrentPriorityQueue.m" (KSync "lock") GNone;
-  mkRow "ConcurrentPriorityQueue" "Dequeue" "return c.pq.Dequeue()" "ConcurrentPriorityQueue.pq" KRead GConst;
   mkRow "ConcurrentPriorityQueue" "Dequeue" "return c.pq.Dequeue()" "ConcurrentPriorityQueue.pq.*" KWrite (GLock "ConcurrentPriorityQueue.m" Excl);
   mkRow "ConcurrentPriorityQueue" "Dequeue" "defer c.m.Unlock()" "ConcurrentPriorityQueue.m" (KSync "unlock") GNone;
   mkRow "ConcurrentPriorityQueue" "Enqueue" "c.m.Lock()" "ConcurrentPriorityQueue.m" (KSync "lock") GNone;
-  mkRow "ConcurrentPriorityQueue" "Enqueue" "return c.pq.Enqueue(t)" "ConcurrentPriorityQueue.pq" KRead GConst;
   mkRow "ConcurrentPriorityQueue" "Enqueue" "return c.pq.Enqueue(t)" "ConcurrentPriorityQueue.pq.*" KWrite (GLock "ConcurrentPriorityQueue.m" Excl);
   mkRow "ConcurrentPriorityQueue" "Enqueue" "defer c.m.Unlock()" "ConcurrentPriorityQueue.m" (KSync "unlock") GNone;
   mkRow "ConcurrentPriorityQueue" "Len" "c.m.RLock()" "ConcurrentPriorityQueue.m" (KSync "rlock") GNone;
-  mkRow "ConcurrentPriorityQueue" "Len" "return c.pq.Len()" "ConcurrentPriorityQueue.pq" KRead GConst;
   mkRow "ConcurrentPriorityQueue" "Len" "return c.pq.Len()" "ConcurrentPriorityQueue.pq.*" KRead (GLock "ConcurrentPriorityQueue.m" Shared);
   mkRow "ConcurrentPriorityQueue" "Len" "defer c.m.RUnlock()" "ConcurrentPriorityQueue.m" (KSync "runlock") GNone;
   mkRow "ConcurrentPriorityQueue" "Peek" "c.m.RLock()" "ConcurrentPriorityQueue.m" (KSync "rlock") GNone;
-  mkRow "ConcurrentPriorityQueue" "Peek" "return c.pq.Peek()" "ConcurrentPriorityQueue.pq" KRead GConst;
   mkRow "ConcurrentPriorityQueue" "Peek" "return c.pq.Peek()" "ConcurrentPriorityQueue.pq.*" KRead (GLock "ConcurrentPriorityQueue.m" Shared);
   mkRow "ConcurrentPriorityQueue" "Peek" "defer c.m.RUnlock()" "ConcurrentPriorityQueue.m" (KSync "runlock") GNone
 ].
